@@ -54,7 +54,11 @@ Inductive agg :=
   | Counter (nm : Z) (k : Z)                 (* counter.nm(k) *)
   | Sum (nm : Z) (e : nexp)                  (* sum.nm(e) *)
   | Subtotal (nm : Z) (i : nat) (e : nexp)   (* subtotal.nm(#h, e) *)
-  | AssignK (nm : Z) (key : ustring) (e : nexp).   (* @nm.key = e *)
+  | AssignK (nm : Z) (key : ustring) (e : nexp)    (* @nm.key = e *)
+  (* tally(#a, #b) with several arguments is three stores: one per argument (dictionary 100+i, skipped when the value is blank;
+     a missing cell counts as the text None) and one under the values joined by '|' (dictionary 99, "tally") *)
+  | TallyS (i : nat)
+  | TallyC (i j : nat).
 Inductive action := AssignN (x : Z) (e : nexp) | AssignS (x : Z) (e : sexp) | PushN (k : Z) (e : nexp) | PushS (k : Z) (e : sexp) | Pop (x k : Z)
   | Agg (g : agg).
 Inductive comp := CB (b : bexp) | CAct (a : action) | CWhen (b : bexp) (a : action) | CAgg (g : agg).
@@ -233,6 +237,10 @@ Section Eval.
     mkMx (vars m) (stacks m) (update nm (uupdate key v (match lookup nm (dicts m) with Some d => d | None => [] end)) (dicts m)).
   Definition num_of (v : option value) : Z := match v with Some (VI z) | Some (VF z) => z | _ => 0 end.
 
+  (** f"{header value}": the cell's text, or the text None for a cell the record does not have *)
+  Definition tally_text (l : line ustring) (i : nat) : ustring := match cell l i with Some t => t | None => [78; 111; 110; 101] end.
+  Definition is_blank_text (t : ustring) : bool := match strip t with [] => true | _ => false end.
+
   Definition do_agg (s : cst) (l : line ustring) (g : agg) : cst * bool :=
     let m := x mx s in
     match g with
@@ -257,6 +265,13 @@ Section Eval.
         let key := hdr_key l i in
         (with_mx s (dset m nm key (VF (num_of (dget m nm key) + fst (neval s l e)))), AND)
     | AssignK nm key e => (with_mx s (dset m nm key (nvalue s l e)), AND)
+    | TallyS i =>
+        let key := tally_text l i in
+        if is_blank_text key then (s, true)
+        else (with_mx s (dset m (100 + Z.of_nat i) key (VI (num_of (dget m (100 + Z.of_nat i) key) + 1))), true)
+    | TallyC i j =>
+        let key := tally_text l i ++ [124] ++ tally_text l j in
+        (with_mx s (dset m 99 key (VI (num_of (dget m 99 key) + 1))), true)
     end.
 
   Definition do_action (s : cst) (l : line ustring) (a : action) : cst :=
